@@ -25,4 +25,5 @@ MDiv(m, a, b) == MMul(m, a, MInv(m, b))
 MIsSquare(m, x) == NMod(x, m) = MZero(m) \/ NPowMod(x, NShr1(NSub(m, NFromNat(1))), m) = MOne(m)
 MLegendre(m, x) == IF NMod(x, m) = MZero(m) THEN 0 ELSE IF MIsSquare(m, x) THEN 1 ELSE -1
 IsCanon(m, a) == NLess(a, m)
+NEq(a, b) == ~NLess(a, b) /\ ~NLess(b, a)                 \* numeric equality (representations may differ in length)
 =============================================================================
